@@ -89,4 +89,28 @@ theorem dictSet_length_of_mem {k : κ} {v : ν} {d : List (κ × ν)} (h : k ∈
   have := congrArg List.length (dictSet_keys_of_mem (v := v) h)
   simpa using this
 
+theorem dictGet?_dictSet (k p : κ) (v : ν) : ∀ (d : List (κ × ν)),
+    dictGet? p (dictSet k v d) = if k == p then some v else dictGet? p d := by
+  intro d
+  induction d with
+  | nil => simp [dictSet, dictGet?]
+  | cons kv r ih =>
+    obtain ⟨k', v'⟩ := kv
+    simp only [dictSet]
+    by_cases hk : (k' == k) = true
+    · have hkk : k' = k := eq_of_beq hk
+      subst hkk
+      simp only [hk, if_true, dictGet?]
+      by_cases hp : (k' == p) = true <;> simp [hp]
+    · simp only [hk, Bool.false_eq_true, if_false, dictGet?]
+      by_cases hp : (k' == p) = true
+      · have hpp : k' = p := eq_of_beq hp
+        subst hpp
+        have : (k == k') = false := by
+          cases hb : (k == k') with
+          | false => rfl
+          | true => exact absurd (by rw [eq_of_beq hb]; exact beq_self_eq_true _) hk
+        simp [this]
+      · simp [hp, ih]
+
 end Clikit
